@@ -115,7 +115,18 @@ def needs_trace_establishers(prog):
         return out
     ctors = sorted(n for n, ks in prog.seed_n.items()
                    if ks and prog.ty(prog.bodies[ks[0]]["locals"][0]).get("s") == HDR and "{closure" not in n)
-    for w in list(header_writers(prog)) + [c for c in ctors]:
+    direct = header_writers(prog)
+    via = []
+    prog.edges()
+    for n_, ks in prog.seed_n.items():
+        if n_.startswith("gc_ptr::") and "{closure" not in n_ and ks and n_ not in direct:
+            b_ = prog.bodies.get(ks[0])
+            if b_ and (b_.get("argc") or 0) >= 2 and prog.ty(b_["locals"][1]).get("s", "").lstrip("&") == HDR and \
+                    any(prog.ty(b_["locals"][i]).get("k") == "bool" for i in range(2, b_["argc"] + 1)):
+                reach = prog.reachable_from([n_])
+                if any(d in reach for d in direct):
+                    via.append(n_)
+    for w in list(direct) + sorted(via) + [c for c in ctors]:
         keys = prog.seed_n.get(w) or []
         b = prog.bodies.get(keys[0]) if keys else None
         if not b or w in out:
@@ -171,21 +182,37 @@ def flag_encoding(chk, prog, config="default"):
     }
     for g in getters.values():
         chk.anchor(g[0], g[0] in prog.seed_n)
-    writers = header_writers(prog)
+    direct = header_writers(prog)
+    # the functions that decide what is written: header methods taking one flag / colour argument from which a store to
+    # the tagged word is reachable (directly, or through a private plumbing helper that applies a closure to the word)
+    prog.edges()
     setters = []        # (fn, values, decode)
-    extra = []
-    for w in writers:
-        if w == "gc_ptr::GcHeader::new":
+    shaped = {}
+    for n_, ks in prog.seed_n.items():
+        if not n_.startswith("gc_ptr::") or "{closure" in n_ or not ks:
             continue
-        keys = prog.seed_n.get(w) or []
-        b = prog.bodies.get(keys[0]) if keys else None
-        vals = dec = None
+        b = prog.bodies.get(ks[0])
         if b and b.get("argc") == 2 and prog.ty(b["locals"][1]).get("s", "").lstrip("&") == HDR:
             vals, dec = _param_values(prog, b["locals"][2])
-        if vals is None:
-            extra.append(w)
-        else:
-            setters.append((w, vals, dec))
+            if vals is not None:
+                shaped[n_] = (vals, dec)
+    writers = []
+    for n_, (vals, dec) in sorted(shaped.items()):
+        reach = prog.reachable_from([n_])
+        if n_ in direct or any(d in reach for d in direct):
+            setters.append((n_, vals, dec))
+            writers.append(n_)
+    # a direct writer that is not itself such a method must be reachable only through them (or the constructor)
+    from gcv.props import common as _common
+    allowed = set(writers) | {"gc_ptr::GcHeader::new"}
+    extra = []
+    for w in direct:
+        if w in allowed:
+            continue
+        esc = _common.escapes(prog, w, allowed)
+        if esc is not None:
+            extra.append("%s (reachable from %s)" % (w, esc))
+    writers = sorted(set(writers) | set(direct))
     chk.inst("vtable-word-writers-analysed", "gc_ptr::GcHeader.tagged_vtable[%s]" % config, not extra,
              detail="the tagged vtable word is also written by %s, which the encode/decode analysis does not cover (not a "
                     "header method taking one flag or colour argument): the vtable of a live object could be rewritten (it "
